@@ -292,6 +292,32 @@ theorem louvain_fit_terminates (kind : Modularity.Kind) (res tolOpt tolAgg : Rat
 example : (Modularity.louvainLoop 1 0 0 (-1) 5 3 0 pairLevel (Modularity.arange 2) []).map (·.labels) = some [0, 0] := by
   decide +kernel
 
+/-! ### the same loops as compiled now (pass caps of F21 / F22 in the kernels) -/
+
+/-- **louvain_fit_compiled_terminates.**  On the chain that mirrors the code as it is compiled now
+    (`SkNet.Modularity.louvainFitCapped`: `optimize_core` returns after at most `n + 1` passes, /repo 244a467f), over ℚ:
+    once the input is accepted, `Louvain.fit` returns for **every** `tol_optimization` — the kernel is total by its cap,
+    no budget appears — and every `tol_aggregation ≥ 0`: the increase a round reports is still exactly the change of `Q`,
+    so a round that continues strictly decreases the number of nodes and the `n + 1` rounds are never exhausted.
+    (`optimize_core_terminates` above is about the loop *without* the cap: it says the cap is not what ends the loop
+    in exact arithmetic within `K^n + 1` passes; `Modularity.coreCapped_of_coreLoop` relates the two when the
+    uncapped loop ends within `n + 1` passes.) -/
+theorem louvain_fit_compiled_terminates (kind : Modularity.Kind) (res tolOpt tolAgg : Rat) (htolAgg : 0 ≤ tolAgg)
+    (nAgg : Int) (nRow nCol nnz : Nat) (B : Nat → Nat → Rat) (fb : Bool) :
+    Modularity.louvainFitCapped kind res tolOpt tolAgg nAgg nRow nCol nnz B fb ≠ .ok none :=
+  Terminate.louvainFitCapped_terminates kind res tolOpt tolAgg htolAgg nAgg nRow nCol nnz B fb
+
+/-- the outer loop alone, on any well-formed level -/
+theorem louvain_outer_compiled_terminates (res tolOpt tolAgg : Rat) (htolAgg : 0 ≤ tolAgg) (nAgg : Int)
+    (fuel count : Nat) (lv : Modularity.Level) (memb : List Nat) (incs : List Rat) (hlv : Modularity.LevelOK lv)
+    (hf : lv.n + 1 ≤ fuel) :
+    Modularity.louvainLoopCapped res tolOpt tolAgg nAgg fuel count lv memb incs ≠ none :=
+  Terminate.louvainLoopCapped_terminates res tolOpt tolAgg htolAgg nAgg fuel count lv memb incs hlv hf
+
+/-- non-vacuity: the pair level with both tolerances 0 -/
+example : (Modularity.louvainLoopCapped 1 0 0 (-1) 3 0 pairLevel (Modularity.arange 2) []).map (·.labels)
+    = some [0, 0] := by decide +kernel
+
 /-- **push_worklist_terminates.**  The `while not worklist.empty()` loop of `push_pagerank` (model
     `SkNet.Rank.pushLoop`, exact arithmetic) terminates: a vertex re-enters the work-list only when its residual
     crosses the tolerance from below, residuals never decrease, so `|work-list| + n` rounds suffice
